@@ -32,6 +32,10 @@ def custom_classes():
             count('response_class')
             return super().to_json()
 
+        def __bool__(self):
+            # the user's response class has a truth value of its own: an error response is falsy
+            return self.is_success
+
     class BRq(v20.BatchRequest):
         @classmethod
         def from_json(cls, data):
